@@ -3,6 +3,7 @@ package main
 // rules_train.go — training / quantisation rules (C20) and argmin rules shared with C13, C14, C15.
 
 import (
+	"go/constant"
 	"fmt"
 	"go/token"
 	"go/types"
@@ -592,6 +593,17 @@ func ruleKMeansShape(r *Run, p string) {
 			case EndReturn:
 				if s, _ := constString(pth.Ret.Results[0]); pth.Ret.Results[0] != nil && (s == "" || s == "nil") {
 					if cst, ok := pth.Ret.Results[0].(*ssa.Const); ok && cst.Value == nil {
+						// nil reached through a test the (k,0,n) table does not know is the rejection of an invalid input
+						// (ragged rows, …): allowed in every state, it does not count as the clamp's outcome
+						validation := false
+						for _, d := range pth.Decisions {
+							if _, known := decide(d.Cond, pth); !known {
+								validation = true
+							}
+						}
+						if validation {
+							continue
+						}
 						outs["nil"] = true
 						continue
 					}
@@ -762,6 +774,45 @@ func ruleQuantizers(r *Run, p string) []*ssa.Function {
 				got := ""
 				if elem != nil {
 					got = e.S(elem)
+				}
+				// saturation: the stored value is the formula clamped to the int8 code range [−127, 127] — a phi (through
+				// conversions) of the formula's value and the constants ±127
+				if got != want && elem != nil && m != "Dequantize" {
+					v := elem
+					for {
+						if cv, ok := v.(*ssa.Convert); ok {
+							v = cv.X
+							continue
+						}
+						// rounding after the clamp: round(±127) = ±127, so clamp and round commute
+						if call, ok := v.(*ssa.Call); ok && calleeName(call.Common()) == "math.Round" && len(call.Call.Args) == 1 {
+							v = call.Call.Args[0]
+							continue
+						}
+						break
+					}
+					var visit func(v ssa.Value, depth int) (formula, consts bool, okAll bool)
+					visit = func(v ssa.Value, depth int) (bool, bool, bool) {
+						if ph, ok := v.(*ssa.Phi); ok && depth < 4 {
+							f, cst, all := false, false, true
+							for _, ed := range ph.Edges {
+								ef, ec, ea := visit(ed, depth+1)
+								f, cst = f || ef, cst || ec
+								all = all && ea
+							}
+							return f, cst, all
+						}
+						if k, ok := v.(*ssa.Const); ok && k.Value != nil {
+							fl, _ := constant.Float64Val(constant.ToFloat(k.Value))
+							return false, true, fl == 127 || fl == -127
+						}
+						// the rounded value, possibly before the conversion back to float32 / through Round itself
+						es := e.S(v)
+						return es == want || es == eMul(eDiv("x", "m"), "127"), false, es == want || es == eMul(eDiv("x", "m"), "127")
+					}
+					if f, _, all := visit(v, 0); f && all {
+						got = want
+					}
 				}
 				r.Check(got == want, p+".QUANT", "quant:"+name+":formula", site, "element = "+want, "element is "+got+", expected "+want)
 				// trained guard dominates the work
@@ -965,9 +1016,31 @@ func ruleKMeansUpdate(r *Run, rule string) {
 			s := c.S(bo)
 			if strings.Contains(s, "/float32(") {
 				okDiv = true
+				return
+			}
+		}
+		// any other component written into the returned centroid container inside the iteration loop: the centroid is
+		// no longer the mean of vectors (it can leave their bounding box)
+		if ia, ok := st.Addr.(*ssa.IndexAddr); ok {
+			if ld, ok := ia.X.(*ssa.UnOp); ok && ld.Op == token.MUL {
+				if ia2, ok := ld.X.(*ssa.IndexAddr); ok {
+					if mk, isMk := ia2.X.(*ssa.MakeSlice); isMk && !iter.Blocks[mk.Block()] && types.TypeString(mk.Type(), nil) == "[][]float32" {
+						returned := false
+						for _, ret := range returnsOf(fn) {
+							for _, res := range ret.Results {
+								if flowsTo(mk, res, 4) {
+									returned = true
+								}
+							}
+						}
+						if returned {
+							other = w.InstrPos(st) + " (component = " + short(c.S(st.Val), 60) + ")"
+						}
+					}
+				}
 			}
 		}
 	})
 	r.Check(okDiv, rule, "kmeans:mean", site, "centroid component = sum / float32(size)", "the centroid update is not sum/size")
-	r.Check(other == "", rule, "kmeans:empty-keeps", site, "an empty cluster keeps its centroid (no re-seeding inside the iteration loop)", "a centroid is replaced wholesale inside the iteration loop at "+other)
+	r.Check(other == "", rule, "kmeans:empty-keeps", site, "inside the iteration loop a centroid component is only ever written as the mean sum/size of its cluster (an empty cluster keeps its centroid, no re-seeding)", "a centroid is written with something else than its cluster's mean inside the iteration loop at "+other)
 }
